@@ -3947,3 +3947,95 @@ func ruleResolvedHrefCleaned(c *eng.Ctx) {
 		c.Ok(R, eng.FuncName(fn)+"#member", fn.Pos(), "not evaluated: loadChapters does not read members through readFile")
 	}
 }
+
+// ---------------------------------------------------------------------------------------------------------------
+// R15.14 the row written as the header line is not written again as a data row.
+
+// R15.14 [C15, C19]
+func ruleHeaderRowNotRepeated(c *eng.Ctx) {
+	const R = "R15.14-HEADER-ROW-NOT-REPEATED"
+	c.Rule(R, "in the ToMarkdown renderers that write Rows[0] as the header line in front of the delimiter row, every loop over Rows after the delimiter starts at an index proven >= 1: a table without header cells is still written with its first row as the header line (a pipe table needs one), and a data loop that then starts at 0 prints that row twice", 2, 0)
+	boundedProg = c.P
+	n := 0
+	for _, root := range c.P.ModuleFuncs() {
+		if root.Name() != "ToMarkdown" || root.Signature.Recv() == nil || root.Pkg == nil || root.Blocks == nil {
+			continue
+		}
+		isRows := func(v ssa.Value) bool {
+			fr, ok := eng.LoadOfField(v)
+			return ok && fr.Field == "Rows"
+		}
+		// Rows[0] read (for the header line)
+		var first ssa.Instruction
+		eng.Instrs(root, false, func(in ssa.Instruction) {
+			if ia, ok := in.(*ssa.IndexAddr); ok && isRows(ia.X) {
+				if k, isC := eng.ConstInt(ia.Index); isC && k == 0 && first == nil {
+					first = in
+				}
+			}
+		})
+		if first == nil {
+			continue
+		}
+		// the delimiter
+		var sep ssa.Instruction
+		eng.Instrs(root, false, func(in ssa.Instruction) {
+			if sep != nil {
+				return
+			}
+			for _, op := range in.Operands(nil) {
+				if op == nil || *op == nil {
+					continue
+				}
+				if s, ok := eng.ConstString(*op); ok && strings.Contains(s, "---") {
+					sep = in
+				}
+			}
+		})
+		if sep == nil {
+			continue
+		}
+		// loops over Rows after the delimiter
+		eng.Instrs(root, false, func(in ssa.Instruction) {
+			ia, ok := in.(*ssa.IndexAddr)
+			if !ok || !isRows(ia.X) {
+				return
+			}
+			ph, isInd := eng.Induction(ia.Index)
+			if !isInd {
+				return
+			}
+			// after the delimiter: reachable from it, and the delimiter is not reachable from the loop
+			if fw := eng.ReachableBlocks(sep.Block().Succs, nil); !fw[ph.Block()] {
+				return
+			}
+			if bw := eng.ReachableBlocks(ph.Block().Succs, nil); bw[sep.Block()] {
+				return
+			}
+			n++
+			okStart := true
+			for i, e := range ph.Edges {
+				if b, ok := e.(*ssa.BinOp); ok && b.X == ssa.Value(ph) {
+					continue
+				}
+				start := e
+				if ia.Index != ssa.Value(ph) {
+					// rotated range form: the index used is phi+1
+					if k, isC := eng.ConstInt(e); isC {
+						if k+1 < 1 {
+							okStart = false
+						}
+						continue
+					}
+				}
+				if !bounded(root, start, 1, false, ph.Block().Preds[i], 0) {
+					okStart = false
+				}
+			}
+			c.Check(okStart, R, fmt.Sprintf("%s#data-loop@%s", eng.FuncName(root), c.P.Pos(ph.Pos())), ia.Pos(), "the data rows start after the header row", "Rows[0] is written as the header line and the loop over the data rows can start at 0: the first row of a table without header cells is printed twice")
+		})
+	}
+	if n == 0 {
+		c.Undec(R, "module#ToMarkdown", token.NoPos, "no table renderer with a header line and a data loop found")
+	}
+}
